@@ -45,7 +45,7 @@ def gtaCollapse : Bool := false
 
 /-- fingerprints (extract/common FuncHash) of the functions Model/Src.lean was transcribed from -/
 def sourceHashes : List (String × String) :=
-  [("Interpreter.importSrc", "c576e5c0b154d9ae"),
+  [("Interpreter.importSrc", "6e5eed42efca49b4"),
    ("Interpreter.rootFromSourceLocation", "c6cbb2779907acb0"),
    ("Interpreter.rootFromDir", "e99c87ffbfab385e"),
    ("Interpreter.mainRoot", "7fa06822003a1d76"),
